@@ -870,20 +870,28 @@ def model_eval_many(progs, whats):
     exprs = []
     for w in whats:
         exprs += _model_exprs(progs, w)
-    # starting coqc and loading the libraries costs more than evaluating some hundred cases: few, large chunks.
-    # Each chunk is one coq_eval call of its own (one coqc whose output is read while it runs), in a thread.
-    k = max(1, min(6, len(exprs) // 300))
+    # starting coqc and loading the libraries costs a few seconds, but coqc slows down more than linearly with the
+    # number of Evals in one file: chunks of about 600, each one coq_eval call of its own (one coqc whose output is
+    # read while it runs), a bounded number of them at a time.
+    k = max(1, -(-len(exprs) // 600))
     size_ = -(-len(exprs) // k)
     chunks = [exprs[i:i + size_] for i in range(0, len(exprs), size_)] or [[]]
     outs = [None] * len(chunks)
+    todo = list(range(len(chunks)))
+    lock = threading.Lock()
 
-    def work(i):
-        try:
-            outs[i] = vlib.coq_eval(IMPORTS, "Open Scope string_scope.", chunks[i], tag="cmp%d" % i, timeout=1500,
-                                    shard=max(1, len(chunks[i])))
-        except BaseException as ex:      # re-raised in the caller's thread
-            outs[i] = ex
-    threads = [threading.Thread(target=work, args=(i,)) for i in range(len(chunks))]
+    def work():
+        while True:
+            with lock:
+                if not todo:
+                    return
+                i = todo.pop(0)
+            try:
+                outs[i] = vlib.coq_eval(IMPORTS, "Open Scope string_scope.", chunks[i], tag="cmp%d" % i, timeout=900,
+                                        shard=max(1, len(chunks[i])))
+            except BaseException as ex:      # re-raised in the caller's thread
+                outs[i] = ex
+    threads = [threading.Thread(target=work) for _ in range(min(len(chunks), max(2, min(8, vlib.NPROC // 2))))]
     for t in threads:
         t.start()
     for t in threads:
